@@ -24,6 +24,11 @@ Plan gen_c10(uint64_t seed, int tier)
     // one real file sink, written through stdio (F3)
     p.cfg["sink" + std::to_string(nsinks - 1) + "_type"] = Rng(seed ^ 0x1505).chance(1, 3) ? 2 : 1; // (2 = JsonFileSink)
     p.cfg["sink" + std::to_string(nsinks - 1) + "_notifier"] = Rng(seed ^ 0x77).chance(1, 3) ? 1 : 0; // with FileEventNotifier callbacks
+    if (p.cfg["sink" + std::to_string(nsinks - 1) + "_type"] == 1 && Rng(seed ^ 0x9907).chance(1, 3))
+    {
+      // a RotatingFileSink: the destination is the set of its files (an fwrite failure costs at most the one statement there too)
+      p.cfg["sink" + std::to_string(nsinks - 1) + "_rotating"] = Rng(seed ^ 0x9908).pick<int64_t>({512, 700, 1024, 2048});
+    }
     file_sink = true;
   }
   fix_timescale(p);
@@ -615,6 +620,17 @@ Verdict judge_c10(Plan const& p, History const& h, RunInfoLite const& ri)
   v.probes["throwing_user_formatter_statements"] = ri.faults_fired[5];
   v.probes["backtrace_without_init_statements"] = bt_faults;
   v.probes["fwrite_failures"] = ri.fwrite_faults;
+  {
+    int64_t rot = 0;
+    for (auto const& e : h.ev)
+    {
+      if (e.type == EV_FILE_SNAP)
+      {
+        rot = std::max(rot, e.b);
+      }
+    }
+    v.probes["rotated_files_in_a_rotating_destination"] = static_cast<uint64_t>(rot);
+  }
   v.probes["notifier_reports"] = reports;
   v.probes["file_sinks_checked"] += 0;
   v.probes["flush_returns_sink_pairs_checked"] += 0;
